@@ -21,6 +21,7 @@ func (w *World) Exec(idx int, op Op) {
 	w.Env.BudgetUsed = 0
 	w.Env.BudgetHit = false
 	total := int64(0)
+	w.curFaults = op.Faults
 	for _, d := range w.Disks {
 		d.BeginOp(op.Faults)
 		total += d.Size()
@@ -677,7 +678,11 @@ func (w *World) opSnapshot(h *StoreH, op Op) {
 		w.fail("nil-store", kind, "Snapshot returned nil")
 		return
 	}
-	nh := &StoreH{ID: op.N, S: s, Disk: h.Disk, Snap: true, Parent: h.ID, M: h.M.Clone(), CB: h.CB, Chunk: h.Chunk,
+	origin := h.ID
+	if h.Snap {
+		origin = h.Origin
+	}
+	nh := &StoreH{ID: op.N, S: s, Disk: h.Disk, Snap: true, Parent: h.ID, Origin: origin, M: h.M.Clone(), CB: h.CB, Chunk: h.Chunk,
 		SizeKnown: h.SizeKnown, Size: h.Size}
 	w.setStore(nh)
 }
@@ -690,11 +695,21 @@ func (w *World) opSetColl(h *StoreH, op Op) {
 	}
 	cmp := op.Cmp
 	old, exists := h.M.Colls[op.C]
-	if exists {
-		cmp = old.Cmp // only order-equivalent comparators on existing names
+	if exists && len(old.Items) > 1 {
+		// a different ordering is only meaningful while the existing items
+		// are trivially ordered under both comparators (<= 1 item)
+		cmp = old.Cmp
+	}
+	if exists && cmp != old.Cmp {
+		w.probe("setcoll-existing-new-comparator")
 	}
 	var c *gkvlite.Collection
-	w.protect(kind, func() { c = h.S.SetCollection(op.C, w.cmpFunc(cmp)) })
+	cmpf := w.cmpFunc(cmp)
+	if cmp == CmpBytes && op.N2 == 1 {
+		cmpf = nil // the documented way to ask for the default bytes.Compare
+		w.probe("setcoll-nil-comparator")
+	}
+	w.protect(kind, func() { c = h.S.SetCollection(op.C, cmpf) })
 	if w.Viol != nil {
 		return
 	}
